@@ -784,11 +784,17 @@ func TestVerifC10Ops(t *testing.T) {
 		Random     int         `json:"random"`     // number of random runs
 		RandomLen  int         `json:"random_len"` // operations per run
 		MetaLens   []int       `json:"meta_lens"`
+		Chains     []int       `json:"chains"` // long-chain runs: this many names in ONE bucket
 	}
 	if err := rt.In(&in); err != nil {
 		t.Skip(err)
 	}
 	rng := rand.New(rand.NewSource(rt.Seed()*104729 + 3))
+	defer func() {
+		for i, n := range in.Chains {
+			longChain(t, rng, 2000000+i, n, in.MetaLens)
+		}
+	}()
 	names := map[int][]byte{}
 	ids := map[string]int{}
 	for k, v := range in.Names {
@@ -1121,4 +1127,83 @@ func headsJSON(st mstate) []rt.M {
 		out = append(out, rt.M{"b": h[0], "off": h[1]})
 	}
 	return out
+}
+
+// longChain is the growth of one hash chain over many pages: n names that all
+// fall into one bucket are created through one library writer (values 1..),
+// then every one is incremented again through a second writer that opened the
+// file afterwards (so it has to walk the whole chain to find the last ones).
+// The independent decoder must find the file well-formed, with every name
+// exactly once, all in that one chain, holding the sum; and the library must
+// read the same.  A chain is as long as the names that collide: the layout
+// puts no bound on it.
+func longChain(t *testing.T, rng *rand.Rand, run, n int, metaLens []int) {
+	w, err := newWorld(t, rng, metaLens[rng.Intn(len(metaLens))])
+	if err != nil {
+		rt.Out(rt.M{"kind": "infra", "what": err.Error()})
+		return
+	}
+	defer w.closeAll()
+	bucket := rng.Intn(512)
+	taken := map[string]bool{}
+	var names [][]byte
+	for len(names) < n {
+		b, ok := nameInBucket(rng, 6+rng.Intn(20), bucket, taken)
+		if !ok {
+			rt.Out(rt.M{"kind": "infra", "what": "no colliding name found"})
+			return
+		}
+		taken[string(b)] = true
+		names = append(names, b)
+	}
+	bad := func(what string, m rt.M) {
+		m["kind"], m["what"], m["random_run"], m["op"], m["chain"] = "mismatch", what, run, "long-chain", n
+		rt.Out(m)
+	}
+	for i, nm := range names {
+		if err := w.add("p", nm, int64(i%5)+4); err != nil {
+			bad("op-error", rt.M{"a": "p", "nlen": len(nm), "err": err.Error(), "index": i})
+			return
+		}
+	}
+	for i, nm := range names {
+		if err := w.add("q", nm, 4); err != nil {
+			bad("op-error", rt.M{"a": "q", "nlen": len(nm), "err": err.Error(), "index": i})
+			return
+		}
+	}
+	w.closeAll()
+	_, f, data, err := w.observe(map[string]int{})
+	if err != nil {
+		bad("read", rt.M{"err": err.Error()})
+		return
+	}
+	if lp := layoutProblems(f); len(lp) > 0 {
+		bad("layout", rt.M{"problems": lp})
+		return
+	}
+	got := map[string][]uint64{}
+	for _, r := range f.Records {
+		got[r.Name] = append(got[r.Name], r.Value)
+		if r.Bucket != bucket {
+			bad("chain", rt.M{"msg": fmt.Sprintf("a record of the run is in bucket %d, not %d", r.Bucket, bucket)})
+			return
+		}
+	}
+	for i, nm := range names {
+		vs := got[string(nm)]
+		if want := uint64(i%5) + 8; len(vs) != 1 || vs[0] != want {
+			bad("chain", rt.M{"msg": fmt.Sprintf("name %d of %d in one bucket: the file holds values %v, written %d", i, n, vs, want), "nlen": len(nm)})
+			return
+		}
+	}
+	if len(got) != n {
+		bad("chain", rt.M{"msg": fmt.Sprintf("%d distinct names in the file, %d written", len(got), n)})
+		return
+	}
+	if msg := libraryReads(w.findFile(), data, f); msg != "" {
+		bad("library-read", rt.M{"msg": msg})
+		return
+	}
+	rt.Out(rt.M{"kind": "chain-ok", "n": n, "bucket": bucket, "size": f.Size})
 }
